@@ -44,7 +44,7 @@ FAIL_PATTERNS = [
     r'decreases not satisfied', r'could not prove termination', r'possible bit shift',
     r'loop invariant', r'recommendation not met', r'unreachable', r'index out of bounds',
     r'failed to satisfy', r'not satisfied', r'might not hold', r'possible .*overflow',
-    r'cannot show .* (exhaustive|unreachable)', r'ensures not satisfied',
+    r'cannot show .* (exhaustive|unreachable)', r'ensures not satisfied', r'unable to prove',
 ]
 
 
@@ -435,6 +435,10 @@ def main(argv):
             else:
                 obligations.append(k['obligation'])
                 discharged.append(k['obligation'])
+    # scaffolding obligations (contract-internal pins, e.g. a mirrored policy) never raise an alarm
+    for o in [o for o in failed if o.startswith('SCAFFOLD.')]:
+        undecided.append('contract scaffolding out of date: %s (%s)' % (o, failed[o][0]['message']))
+        del failed[o]
     known = [k for k in load_known() if k['property'] == prop and k.get('status') == 'known']
     known_obl = {k['obligation']: k for k in known}
     violations = []
